@@ -15,6 +15,9 @@ inductive Op
   | pushFunction (f : Obj)            -- stack.push(function)
   | pushBoundMethod (self : Obj) (name : Nat)   -- stack.push(obj.method)
   | pushBuiltinBound (self : Obj)     -- stack.push(lock.__exit__): a bound method of a C-implemented object
+  | pushBuiltinFunction (f : Obj)     -- stack.push(print): a builtin function (its __self__ is its module)
+  | enterContextAliased (m : Obj)     -- stack.enter_context(cm) where type(cm).__exit__ is an alias of / decorator around another name
+  | enterAsyncContextAliased (m : Obj)  -- the same for __aexit__
   | callback (f : Obj)                -- stack.callback(f, *args, **kw)
   | enterAsyncContext (m : Obj)       -- await stack.enter_async_context(cm)
   | pushAsyncExitManager (m : Obj)    -- stack.push_async_exit(cm)   (type has __aexit__)
@@ -27,6 +30,8 @@ inductive Callback
   | exitMethod (m : Obj)              -- MethodType(type(m).__exit__ / __aexit__, m): __func__.__name__ is "__exit__"/"__aexit__"
   | boundOther (self : Obj) (name : Nat)   -- some other bound method
   | builtinBound (self : Obj)         -- a builtin bound method: has __self__, is not a types.MethodType, has no __func__
+  | builtinFunction (f : Obj)         -- a builtin function: has __self__ (a module object), is not a types.MethodType
+  | exitAlias (m : Obj)               -- MethodType(type(m).__exit__ / __aexit__, m) whose __func__.__name__ is something else
   | exitWrapper (f : Obj)             -- contextlib's _exit_wrapper, __wrapped__ = f, closes over args / kwds
   | plain (f : Obj)                   -- a plain function (no __self__, not an _exit_wrapper)
   deriving DecidableEq, Repr
@@ -43,6 +48,9 @@ def register : Op → Entry
   | .pushFunction f => ⟨true, .plain f⟩
   | .pushBoundMethod s n => ⟨true, .boundOther s n⟩
   | .pushBuiltinBound s => ⟨true, .builtinBound s⟩
+  | .pushBuiltinFunction f => ⟨true, .builtinFunction f⟩
+  | .enterContextAliased m => ⟨true, .exitAlias m⟩
+  | .enterAsyncContextAliased m => ⟨false, .exitAlias m⟩
   | .callback f => ⟨true, .exitWrapper f⟩
   | .enterAsyncContext m => ⟨false, .exitMethod m⟩
   | .pushAsyncExitManager m => ⟨false, .exitMethod m⟩
@@ -74,8 +82,12 @@ def classify (idx : Nat) (e : Entry) : Child :=
     ⟨.manager m, !e.isSync, if e.isSync then .enterContext else .enterAsyncContext, !e.isSync, idx⟩
   | .boundOther s n =>      -- hasattr(__self__) but some other method: stack.push(something.exit_ish_method)
     ⟨.manager s, !e.isSync, if e.isSync then .push else .pushAsyncExit, false, idx⟩
-  | .builtinBound s =>      -- hasattr(__self__) and not a MethodType (the test never looks at __func__): taken for the manager's exit
-    ⟨.manager s, !e.isSync, if e.isSync then .enterContext else .enterAsyncContext, !e.isSync, idx⟩
+  | .builtinBound s =>      -- hasattr(__self__), __self__ is not a module, not a MethodType: stack.push(something.exit_ish_method)
+    ⟨.manager s, !e.isSync, if e.isSync then .push else .pushAsyncExit, false, idx⟩
+  | .builtinFunction f =>   -- __self__ is a module: not bound to a manager at all; an exit-ish function
+    ⟨.callable (.builtinFunction f), !e.isSync, if e.isSync then .push else .pushAsyncExit, false, idx⟩
+  | .exitAlias m =>         -- MethodType whose __func__ is type(__self__).__exit__ / __aexit__ under another name
+    ⟨.manager m, !e.isSync, if e.isSync then .enterContext else .enterAsyncContext, !e.isSync, idx⟩
   | .exitWrapper f =>       -- __wrapped__ and __name__ == "_exit_wrapper" with args/kwds free variables
     ⟨.callable (.exitWrapper f), !e.isSync, if e.isSync then .callback else .pushAsyncCallback, false, idx⟩
   | .plain f =>
@@ -92,7 +104,10 @@ def specOf (idx : Nat) : Op → Child
   | .pushManager m => ⟨.manager m, false, .enterContext, false, idx⟩
   | .pushFunction f => ⟨.callable (.plain f), false, .push, false, idx⟩
   | .pushBoundMethod s n => ⟨.manager s, false, .push, false, idx⟩
-  | .pushBuiltinBound s => ⟨.manager s, false, .enterContext, false, idx⟩
+  | .pushBuiltinBound s => ⟨.manager s, false, .push, false, idx⟩
+  | .pushBuiltinFunction f => ⟨.callable (.builtinFunction f), false, .push, false, idx⟩
+  | .enterContextAliased m => ⟨.manager m, false, .enterContext, false, idx⟩
+  | .enterAsyncContextAliased m => ⟨.manager m, true, .enterAsyncContext, true, idx⟩
   | .callback f => ⟨.callable (.exitWrapper f), false, .callback, false, idx⟩
   | .enterAsyncContext m => ⟨.manager m, true, .enterAsyncContext, true, idx⟩
   | .pushAsyncExitManager m => ⟨.manager m, true, .enterAsyncContext, true, idx⟩
